@@ -138,6 +138,12 @@ func IntFromString(str string, base int) (Object, error) {
 		convertBase = 10
 	}
 
+	// The sign has been dealt with: the digits must not carry
+	// another one (which ParseInt and SetString would accept)
+	if s[0] == '+' || s[0] == '-' {
+		goto error
+	}
+
 	// Detect leading zeros which Python doesn't allow using base 0
 	// (a decimal literal only: digits after a 0x/0o/0b prefix may start
 	// with zeros, and so may a literal that is zero)
